@@ -109,6 +109,13 @@ def compare(m: G.Msg, got: Dict[str, Any], disabled: List[bytes]) -> List[Tuple[
                 bad.append(('missing-header:' + k.decode('latin-1'), exp.get(k)))
             else:
                 bad.append(('header-value:' + k.decode('latin-1'), (exp.get(k), gh.get(k))))
+    # "names ... intact": the spelling (letter case) of every forwarded field name is the one the client used
+    sent_names = {k.lower(): k for k, _ in m.headers}
+    for k, _ in got['raw_headers']:
+        lk = k.lower()
+        if lk in exp and lk in sent_names and k != sent_names[lk]:
+            bad.append(('header-name-respelt', (sent_names[lk], k)))
+            break
     if not got['complete']:
         bad.append(('incomplete-at-origin', len(got['body'])))
     elif got['body'] != m.body:
